@@ -931,3 +931,42 @@ func specDeclaredImports(t *lst) int {
 	}
 	return 0
 }
+
+// ---------------------------------------------------------------------------
+// Codec round trips at specification level: the byte specifications the encoders are proved
+// against (specUintByte, specVarUintByte, specVarIntByte) are inverted by the value
+// specifications the decoders are proved against (specBEValue, specVarUintValue/EndAt/Stop,
+// specVarIntValue). The hypotheses say "the n bytes at data[p:] are the encoding of v".
+
+func specHoldsUint(data []byte, p int, v uint64) bool {
+	n := specUintLen(v)
+	ok := true
+	for i := uint64(0); i < 8; i++ {
+		if i < n && data[p+int(i)] != specUintByte(v, n, i) {
+			ok = false
+		}
+	}
+	return ok
+}
+
+func specHoldsVarUint(data []byte, p int, v uint64) bool {
+	n := specVarUintLen(v)
+	ok := true
+	for i := uint64(0); i < 10; i++ {
+		if i < n && data[p+int(i)] != specVarUintByte(v, n, i) {
+			ok = false
+		}
+	}
+	return ok
+}
+
+func specHoldsVarInt(data []byte, p int, v int64) bool {
+	n := specVarIntLen(v)
+	ok := true
+	for i := uint64(0); i < 10; i++ {
+		if i < n && data[p+int(i)] != specVarIntByte(v, n, i) {
+			ok = false
+		}
+	}
+	return ok
+}
